@@ -62,12 +62,31 @@ def main():
             rec = json.load(f)
         ctx = Ctx(prop, rec.get('tier', 'quick'), rec.get('seed', 0), 0, 1)
         mod.replay(ctx, rec['case'])
+        known = {}
+        try:
+            with open(os.path.join(ROOT, 'known_findings.json')) as f:
+                for k in json.load(f).get('findings', []):
+                    if k.get('property') == prop and k.get('status') == \
+                            'open':
+                        known[k['key']] = k
+        except Exception:
+            pass
+        classify = getattr(mod, 'classify', None)
+        unknown = 0
         for v in ctx.violations:
             print('REPLAY sig=%s detail=%s' % (
                 v['sig'], json.dumps(v['detail'], default=repr)[:2000]))
-        if ctx.violations:
+            key = classify(v) if classify else None
+            if key in known:
+                print('KNOWN-FINDING: property=%s %s' % (prop,
+                                                         known[key]['what']))
+            else:
+                unknown += 1
+        if unknown:
             print('VIOLATION property=%s replay=%s' % (prop, sys.argv[3]))
             sys.exit(1)
+        if ctx.violations:
+            sys.exit(0)
         print('replay: property held on this case')
         sys.exit(0)
 
